@@ -734,6 +734,12 @@ orc_parse_handle_directive (OrcParser *parser, const OrcLine *line)
   int i;
   for (i=0;dirs[i].name;i++) {
     if (orc_line_match_directive (line, dirs[i].name)) {
+      if (parser->program == NULL &&
+          dirs[i].handler != orc_parse_handle_function &&
+          dirs[i].handler != orc_parse_handle_init) {
+        orc_parse_add_error (parser, "%s before any .function", dirs[i].name);
+        return 0;
+      }
       dirs[i].handler (parser, line);
       return 1;
     }
@@ -796,6 +802,12 @@ orc_parse_handle_opcode (OrcParser *parser, const OrcLine *line)
   int n_args;
   int i, j;
   const char *args[6] = { NULL };
+
+  if (parser->program == NULL) {
+    orc_parse_add_error (parser, "opcode %s before any .function",
+        line->tokens[0]);
+    return 0;
+  }
 
   if (strcmp (line->tokens[0], "x4") == 0) {
     flags |= ORC_INSTRUCTION_FLAG_X4;
